@@ -19,6 +19,13 @@ def check(run: Run) -> None:
     run.rule("C11.R5", "ModifiedZorgNotesEvent is queued iff notes were stamped and its handler reaches the page write")
     run.rule("C11.R6", "the index-side re-stamped body keeps the note's line structure (split/join separators agree)")
     run.rule("C11.R7", "index side and file side read the same (local) clock")
+    run.rule("C11.R8", "the 'edited since it was indexed' decision is taken against the page's previous index state: every page the reindex processes has its old rows fetched (removed) before it is "
+             "added again, whatever the hash map says about it (the per-page order obligations of C06.R2, adopted)")
+    from ..indexscen import reindex_rules
+
+    sub6 = Run("C06", run.tier, run.repo)
+    reindex_rules(sub6, model, dict(order="C06.R2"))
+    run.floor("adopted per-page order obligations", run.adopt(sub6, ("C06.R2",), "C11.R8"), 3)
     stamp_table(run, model, "C11.R1")
     eq_fields(run, model, "C11.R2")
     writeback_conservation(run, model, "C11.R3")
